@@ -168,7 +168,97 @@ def eqSimplify (neg : Bool) (a b : ATm α) (rhs : ERhs) : Bool :=
        | some x, some y => x ≠ y
        | _, _ => false))
 
+-- ---------------------------------------------------------------- sum_simplify
+
+/-- `is_frac_number()`: a natural-number literal, or `m / n` of two such literals with `n != 1` and
+`gcd m n = 1` (so `1 / 0` counts) -/
+def isFracNum : ATm α → Bool
+  | .lit _ => true
+  | .div (.lit m) (.lit n) => n != 1 && Nat.gcd m n == 1
+  | _ => false
+
+/-- `is_number()` -/
+def isNumber : ATm α → Bool
+  | .neg x => isFracNum x && !(x = .lit 0)
+  | t => isFracNum t
+
+/-- `dest_number()` of a term for which `is_number()` holds (`n / 0 = 0`) -/
+def numVal : ATm α → α
+  | .lit n => (n : α)
+  | .div (.lit m) (.lit n) => if n = 0 then 0 else (m : α) / (n : α)
+  | .neg x => - numVal x
+  | _ => 0
+
+/-- `strip_plus_full` -/
+def stripPlusFull : ATm α → List (ATm α)
+  | .add a b => stripPlusFull a ++ stripPlusFull b
+  | t => [t]
+
+def sumVals : List (ATm α) → α
+  | [] => 0
+  | x :: xs => numVal x + sumVals xs
+
+/-- `sum(ts[1:], ts[0])`: left-nested sum of a non-empty list -/
+def sumLeftFrom (acc : ATm α) : List (ATm α) → ATm α
+  | [] => acc
+  | x :: xs => sumLeftFrom (.add acc x) xs
+
+/-- `int_split_num_expr` / `real_split_num_expr`; `mk c` is the canonical numeral `Int(c)` / `Real(c)` -/
+def splitNum (mk : α → ATm α) (t : ATm α) : ATm α :=
+  let ss := stripPlusFull t
+  let nums := ss.filter isNumber
+  let non := ss.filter (fun x => !isNumber x)
+  let c := sumVals nums
+  match non with
+  | [] => mk c
+  | n0 :: rest => if c = 0 then sumLeftFrom n0 rest else .add (mk c) (sumLeftFrom n0 rest)
+
+/-- verit_sum_simplify -/
+def sumSimplify (mk : α → ATm α) (l r : ATm α) : Bool :=
+  splitNum mk l = r || splitNum mk l = splitNum mk r
+
+/-- `strip_times_full` -/
+def stripTimesFull : ATm α → List (ATm α)
+  | .mul a b => stripTimesFull a ++ stripTimesFull b
+  | t => [t]
+
+/-- the product of the values of numerals (`functools.reduce(operator.mul, …)`, exact arithmetic) -/
+def prodVals : List (ATm α) → α
+  | [] => ((1 : Nat) : α)
+  | x :: xs => numVal x * prodVals xs
+
+def isMul : ATm α → Bool
+  | .mul _ _ => true
+  | _ => false
+
+/-- the three cases of verit_prod_simplify once the product is on the left -/
+def prodCases (l r : ATm α) : Bool :=
+  let lp := stripTimesFull l
+  if lp.all isNumber && isNumber r && prodVals lp = numVal r then true        -- case 1 (`hol_eval(lhs) == hol_eval(rhs)`)
+  else if r = .lit 0 && lp.any (fun p => p = .lit 0) then true                -- case 2
+  else
+    let rp := stripTimesFull r
+    match lp.filter isNumber with
+    | [] => false                                                            -- `assert len(lhs_consts) > 0`
+    | c :: cs =>
+      prodVals (c :: cs) = prodVals (rp.filter isNumber) &&
+      lp.filter (fun x => !isNumber x) = rp.filter (fun x => !isNumber x)
+
+/-- verit_prod_simplify: at least one side is a product; a product on the right only is swapped to the left -/
+def prodSimplify (l r : ATm α) : Bool :=
+  if !isMul l && !isMul r then false
+  else if !isMul l then prodCases r l
+  else prodCases l r
+
 end generic
+
+/-- `Int(c)`: `zero`, `one`, `of_nat …`, `uminus` of the numeral of `-c` -/
+def mkNumZ (c : Int) : ATm Int := if c < 0 then .neg (.lit c.natAbs) else .lit c.natAbs
+
+/-- `Real(c)`: as `Int(c)` for integers, `numerator / denominator` otherwise -/
+def mkNumQ (c : Rat) : ATm Rat :=
+  let body : ATm Rat := if c.den = 1 then .lit c.num.natAbs else .div (.lit c.num.natAbs) (.lit c.den)
+  if c < 0 then .neg body else body
 
 -- ------------------------------------------------------------------ semantics
 section sem
@@ -207,5 +297,7 @@ def unaryMinusSimplifyZ := @unaryMinusSimplify Int _ _ _ _ _ _ _ _
 def divSimplifyQ := @divSimplify Rat _ _ _ _ _ _ _ _
 def eqSimplifyQ := @eqSimplify Rat _ _ _ _ _ _ _ _
 def eqSimplifyZ := @eqSimplify Int _ _ _ _ _ _ _ _
+def sumSimplifyQ (l r : ATm Rat) : Bool := sumSimplify mkNumQ l r
+def sumSimplifyZ (l r : ATm Int) : Bool := sumSimplify mkNumZ l r
 
 end Holpy.C18.Arith
